@@ -21,7 +21,7 @@ B3 == [state |-> {"Z"}, control |-> {"u", "w"}, calib |-> {"k", "m"},
        snoise  |-> ("Baro" :> (("Q" :> RI(2)) @@ ("r0" :> RI(1))))]
 \* B4: no sensors at all, one control
 B4 == [state |-> {"y", "c"}, control |-> {"q"}, calib |-> {},
-       update |-> ("y" :> Bin("add", Sym("y"), Sym("q"))) @@ ("c" :> Sym("c")),
+       update |-> ("y" :> Bin("add", Sym("y"), Sym("q"))) @@ ("c" :> CI(0)),      \* (an update that is identically zero is an update)
        calmap |-> <<>>, pnoise |-> ("q" :> RI(3)), ppairs |-> <<>>, sensors |-> <<>>, snoise |-> <<>>]
 cBases == <<B1, B2, B3, B4>>
 ====
